@@ -48,7 +48,7 @@ def signature(recs, k, mon):
 
 
 def run_topic_check(ctx, prop, *, kinds, want, given, maxseq, u1_quick, u1_thorough, sim_quick, sim_thorough,
-                    extra_props=(), nusers=3, sess_per_user=1, maxsubs=3, extra_behaviours=None, assumptions=(), rule="", delranges=None, maxdel=2, faults=None, p2p=False, root=False):
+                    extra_props=(), nusers=3, sess_per_user=1, maxsubs=3, extra_behaviours=None, assumptions=(), rule="", delranges=None, maxdel=2, faults=None, p2p=False, root=False, special=False):
     thorough = ctx.tier == "thorough"
     users, sess, topics = world.population(nusers, sess_per_user, ("g1", "p12") if p2p else ("g1",))
     levels, roots = {}, []
@@ -63,6 +63,8 @@ def run_topic_check(ctx, prop, *, kinds, want, given, maxseq, u1_quick, u1_thoro
         kinds = list(kinds) + ["P2P"]
     if root:
         kinds = list(kinds) + ["Obo"]
+    if special:
+        kinds = list(kinds) + ["Special"]
     props = [prop] + list(extra_props)
 
     # ---- U1: exhaustive check of the as-intended design (monitors of this property on every model transition)
@@ -104,7 +106,7 @@ def run_topic_check(ctx, prop, *, kinds, want, given, maxseq, u1_quick, u1_thoro
         behs += extra_behaviours(users, sess, topics)
     SESS_USER.clear()
     SESS_USER.update(sess)
-    bj = world.behaviours_json(behs, users, sess, topics, maxsubs=maxsubs, levels=levels)
+    bj = world.behaviours_json(behs, users, sess, topics + (["sys"] if special else []), maxsubs=maxsubs, levels=levels)
     trace, wall = world.replay(ctx, bj)
     r2, recs, fails, divs = world.check_traces(ctx, trace, cb, props, timeout=1500)
     n = world.report(ctx, recs, fails, divs, prop, sig=signature)
